@@ -126,6 +126,13 @@ def r2_numerals(prog: Program, rep: Report):
             roots.append(st.value)
         elif isinstance(st, ast.AnnAssign) and isinstance(st.target, ast.Name) and st.target.id in used and st.value is not None:
             roots.append(st.value)
+    for st in w.mod.tree.body:             # ... or in a private module-level helper the function delegates to
+        if isinstance(st, (ast.FunctionDef, ast.AsyncFunctionDef)) and st.name in used and st.name.startswith("_"):
+            roots.append(st)
+            for st2 in w.mod.tree.body:
+                if isinstance(st2, ast.Assign) and len(st2.targets) == 1 and isinstance(st2.targets[0], ast.Name) \
+                        and st2.targets[0].id in {n.id for n in ast.walk(st) if isinstance(n, ast.Name)}:
+                    roots.append(st2.value)
     for n in (x for root in roots for x in ast.walk(root)):
         if isinstance(n, (ast.List, ast.Tuple)) and len(n.elts) >= 5 and all(isinstance(e, ast.Tuple) and len(e.elts) == 2 for e in n.elts):
             vals = [(const_value(e.elts[0]), const_value(e.elts[1])) for e in n.elts]
@@ -134,7 +141,14 @@ def r2_numerals(prog: Program, rep: Report):
             elif all(isinstance(a, str) and isinstance(b, int) for a, b in vals):
                 table = [(b, a) for a, b in vals]
     symbols = None
-    for n in ast.walk(r.node):
+    r_roots = [r.node]
+    r_used = {n.id for n in ast.walk(r.node) if isinstance(n, ast.Name)}
+    for st in r.mod.tree.body:             # the symbol table may be a module-level constant the reader names
+        if isinstance(st, ast.Assign) and len(st.targets) == 1 and isinstance(st.targets[0], ast.Name) and st.targets[0].id in r_used:
+            r_roots.append(st.value)
+        elif isinstance(st, ast.AnnAssign) and isinstance(st.target, ast.Name) and st.target.id in r_used and st.value is not None:
+            r_roots.append(st.value)
+    for n in (x for root in r_roots for x in ast.walk(root)):
         if isinstance(n, ast.Dict) and n.keys and all(isinstance(const_value(k), str) for k in n.keys):
             symbols = {const_value(k): const_value(v) for k, v in zip(n.keys, n.values)}
     if table is None or symbols is None:
@@ -179,6 +193,27 @@ def r2_numerals(prog: Program, rep: Report):
                         if isinstance(a1, ast.BinOp) and isinstance(a1.op, ast.Add) and src(a1.left) == f"{src(a0)}[1:]" \
                                 and isinstance(a1.right, ast.List) and len(a1.right.elts) == 1 and const_value(a1.right.elts[0]) == 0:
                             rule_ok = True
+    if rule_ok is False:
+        # the right-to-left scan: for x in reversed(values): total += -x if x < following else x; following = x   (following = 0 first)
+        for n in ast.walk(r.node):
+            if isinstance(n, ast.IfExp) and isinstance(n.body, ast.UnaryOp) and isinstance(n.body.op, ast.USub) \
+                    and isinstance(n.test, ast.Compare) and len(n.test.ops) == 1 and isinstance(n.test.ops[0], ast.Lt) \
+                    and src(n.test.left) == src(n.body.operand) == src(n.orelse) and isinstance(n.test.comparators[0], ast.Name):
+                x_, fol = src(n.orelse), n.test.comparators[0].id
+                lp = getattr(n, "_parent", None)
+                while lp is not None and not isinstance(lp, ast.For):
+                    lp = getattr(lp, "_parent", None)
+                if lp is not None and isinstance(lp.iter, ast.Call) and src(lp.iter.func) == "reversed" and src(lp.target) == x_:
+                    sets = [a for a in ast.walk(r.node) if isinstance(a, ast.Assign) and len(a.targets) == 1 and src(a.targets[0]) == fol]
+                    inside = [a for a in sets if any(a is y for y in ast.walk(lp))]
+                    outside = [a for a in sets if a not in inside]
+                    if len(inside) == 1 and src(inside[0].value) == x_ and inside[0] is lp.body[-1] \
+                            and len(outside) == 1 and const_value(outside[0].value, None) == 0:
+                        rule_ok = True
+                    else:
+                        rule_ok = None
+                elif "+ 1]" not in src(n.test):
+                    rule_ok = None          # some other way of looking at the neighbour: not read
     if rule_ok is None:
         rep.unrec("C19.R2", r, "subtractive-rule", "no conditional negation of a symbol's value found in the reader")
     else:
@@ -188,10 +223,19 @@ def r2_numerals(prog: Program, rep: Report):
     # writer: greedy divmod over the table, concatenated in table order
     dm = [n for n in ast.walk(w.node) if isinstance(n, ast.Call) and src(n.func) == "divmod"]
     join = [n for n in ast.walk(w.node) if isinstance(n, ast.Call) and isinstance(n.func, ast.Attribute) and n.func.attr == "join"]
+    if not dm and not join:
+        # the conversion may live in a private module-level helper the function delegates to (behind a cache, a type check ...)
+        for st in w.mod.tree.body:
+            if isinstance(st, (ast.FunctionDef, ast.AsyncFunctionDef)) and st.name in used and st.name.startswith("_"):
+                dm += [n for n in ast.walk(st) if isinstance(n, ast.Call) and src(n.func) == "divmod"]
+                join += [n for n in ast.walk(st) if isinstance(n, ast.Call) and isinstance(n.func, ast.Attribute) and n.func.attr == "join"]
     ok = len(dm) == 1 and len(join) == 1 and const_value(join[0].func.value) == ""
-    rep.check("C19.R2", w, "greedy-loop", ok, "divmod over the table entries, pieces joined in table order",
-              "int_2_roman is not a greedy divmod over the table joined in order",
-              scenario="numerals are emitted in the wrong order or with wrong multiplicities")
+    if not dm and not join:
+        rep.unrec("C19.R2", w, "greedy-loop", "how int_2_roman walks its table was not found (no divmod / join in it or in a private helper it names)")
+    else:
+      rep.check("C19.R2", w, "greedy-loop", ok, "divmod over the table entries, pieces joined in table order",
+                "int_2_roman is not a greedy divmod over the table joined in order",
+                scenario="numerals are emitted in the wrong order or with wrong multiplicities")
 
 
 def r3_arg_sort(prog: Program, rep: Report, rule: str = "C19.R3"):
